@@ -586,7 +586,11 @@ func (e *Engine) tryReplay(vc *VC, o *Obligation, fres *FuncResult, repo string,
 		text := e.script(vcq, o, extra, q)
 		file := filepath.Join(cfg.TmpDir, "replay-"+safeName(o.Name+o.Case)+".smt2")
 		os.WriteFile(file, []byte(text), 0o644)
-		r, out, _ := runSolver(solver, file, cfg.TimeoutS*3)
+		mt := cfg.TimeoutS
+		if mt > 15 {
+			mt = 15
+		}
+		r, out, _ := runSolver(solver, file, mt)
 		if r != "sat" && useHints {
 			useHints = false
 			continue
